@@ -260,3 +260,67 @@ func FailingOperationCases() []*Case {
 		Globals: map[string]interface{}{}, Shape: Shape{NF: 1}, History: [][]core.File{{broken}, {failing}, {broken, good}}})
 	return cases
 }
+
+// FileNameCases (round 5): the NAMES of the files as a dimension. Equal base
+// names in different directories, names that are prefixes / suffixes of each
+// other, "./", "..", double slashes, backslashes, no extension, the empty
+// name, letter case, Unicode. Every observable -- in particular what
+// Generator.WriteFile(name) returns for each name -- must be the same under
+// every insertion order, and WriteFile(name) must be the script of THAT file.
+// Near-invalid shapes (a template name twice in one file / across files /
+// differing in case; a template named like a namespace): accept/reject and the
+// error must not depend on the order either.
+func FileNameCases() []*Case {
+	file := func(name string, i int) core.File {
+		ns := fmt.Sprintf("fn%d", i)
+		return core.File{Name: name, Text: "{namespace " + ns + "}\n" + strings.Repeat("// pad\n", i) +
+			tmpl("main", "/** @param? s */", "["+ns+" {$s}]{call .leaf"+fmt.Sprint(i)+" data=\"all\"/}") +
+			tmpl("leaf"+fmt.Sprint(i), "/** @param? s */", "leaf"+fmt.Sprint(i)+" {$s}{foreach $i in $s}x{/foreach}")}
+	}
+	sets := [][]string{
+		{"admin/index.soy", "shop/index.soy"},
+		{"shop/index.soy", "admin/index.soy", "index.soy"},
+		{"a.soy", "aa.soy", "x/a.soy"},
+		{"x/a.soy", "a.soy", "x/aa.soy"},
+		{"./a.soy", "a.soy"},
+		{"x//a.soy", "x/a.soy", "x/./a.soy"},
+		{"x\\a.soy", "a.soy", "x/a.soy"},
+		{"a", "a.soy", "a.soy.bak"},
+		{"", "a.soy"},
+		{"", ".", ".."},
+		{"../a.soy", "a.soy", "../../a.soy"},
+		{"A.soy", "a.soy", "A.SOY"},
+		{"é.soy", "e.soy", "é.soy"}, // precomposed / plain / decomposed
+		{"dir/", "dir", "dir/."},
+		{"a.soy", "a.soy", "b.soy"}, // the same name twice: WriteFile is judged for b.soy only
+		{" a.soy", "a.soy", "a.soy "},
+	}
+	var cases []*Case
+	for k, names := range sets {
+		var fs []core.File
+		for i, n := range names {
+			fs = append(fs, file(n, i+1))
+		}
+		cases = append(cases, &Case{ID: fmt.Sprintf("filenames-%02d", k), Origin: "go", Files: fs,
+			Globals: map[string]interface{}{}, Shape: Shape{NF: len(fs)}})
+	}
+	// near-invalid shapes
+	ns := func(n, body string) string { return "{namespace " + n + "}\n" + body }
+	t := func(n, b string) string { return tmpl(n, "/** */", b) }
+	shapes := []struct {
+		id    string
+		nerr  int
+		files []core.File
+	}{
+		{"dup-in-one-file", 1, []core.File{{Name: "a.soy", Text: ns("sh", t("t", "one")+t("t", "two")+t("main", "{call .t/}"))}, {Name: "b.soy", Text: ns("other", t("t", "other"))}}},
+		{"dup-in-one-file-last", 1, []core.File{{Name: "b.soy", Text: ns("other", t("t", "other"))}, {Name: "c.soy", Text: ns("third", t("u", "third"))}, {Name: "a.soy", Text: ns("sh", t("main", "{call .t/}")+t("t", "one")+t("t", "two"))}}},
+		{"dup-across-files", 1, []core.File{{Name: "a.soy", Text: ns("sh", t("t", "one")+t("main", "{call .t/}"))}, {Name: "b.soy", Text: ns("sh", t("t", "two"))}}},
+		{"case-differs", 0, []core.File{{Name: "a.soy", Text: ns("sh", t("Tmpl", "T")+t("main", "{call .Tmpl/}{call .tmpl/}{call SH.tmpl/}"))}, {Name: "b.soy", Text: ns("sh", t("tmpl", "t"))}, {Name: "c.soy", Text: ns("SH", t("tmpl", "S"))}}},
+		{"template-named-like-namespace", 0, []core.File{{Name: "a.soy", Text: ns("r.b", t("c", "C")+t("main", "{call .c/}{call r.b.c.d/}"))}, {Name: "b.soy", Text: ns("r.b.c", t("d", "D"))}}},
+	}
+	for _, sh := range shapes {
+		cases = append(cases, &Case{ID: "shape-" + sh.id, Origin: "go", Files: sh.files, Globals: map[string]interface{}{},
+			Shape: Shape{NF: len(sh.files), NErr: sh.nerr}, NErr: sh.nerr, ErrNamesFilesInOrder: sh.id == "dup-across-files"})
+	}
+	return cases
+}
